@@ -55,6 +55,34 @@ def run(ck):
                     starts = (mo.split("starts=")[1].split() or [""])[0] if "starts=" in mo else ""
                     if oob: fails.append(("read beyond the scratch buffer (model replay of the same tape)", l[:300], "a full comparison reaches past the %d-word buffer; starts=%s" % (d["reqs"][0] // wb, starts[:60])))
                     elif mouts != d["out"]: corr.append((l[:300], d["out"][:8], mouts[:8]))
+            # ---- several requests to ONE sampler object: a request must behave as the same request to a fresh object fed with the rest of the tape
+            # (no state carried from one call to the next: a kept scratch buffer, a stale tail ...), whatever the lengths of the earlier requests
+            seqs = []
+            for l1, l2 in ((1000, 10), (300, 1), (64, 2), (wp + 3, 1), (5, 64)) if not q else ((300, 1), (64, 2), (1000, 10)):
+                need = (l1 + l2 + 4) * (wp + 2) * 3
+                for tag, ws in (("random", [rng.randrange(1 << inb) for _ in range(need)]), ("barrier repeated", (bars[len(bars) // 2] * (need // wp + 1))[:need]),
+                                ("barrier prefix then random", sum(([*bars[rng.randrange(len(bars))][: wp - 1], rng.randrange(1 << inb)] for _ in range(need // wp + 1)), [])[:need])):
+                    seqs.append((tag, l1, l2, ws))
+            res1 = gc.run_lines(exe, ["s%d %s %d T %s" % (l2, hd, l1, gc.words_hex(ws, wb)) for _, l1, l2, ws in seqs])
+            fresh = []
+            for (tag, l1, l2, ws), (r, o, e) in zip(seqs, res1):
+                n_cases += 1
+                if r != 0 or not o:
+                    fails.append(("memory safety (two requests to one object)", "s%d %s %d T ..." % (l2, hd, l1), "rc=%d %s" % (r, " ".join(e[e.find("ERROR"):].split())[:400]))); fresh.append(None); continue
+                d = gc.parse(o)
+                if d["exhausted"] or d["first"] % wb: fresh.append(None); continue
+                fresh.append((d, "q %s %d T %s" % (hd, l2, gc.words_hex(ws[d["first"] // wb:], wb))))
+            res2 = gc.run_lines(exe, [f[1] for f in fresh if f])
+            it = iter(res2)
+            for (tag, l1, l2, ws), f in zip(seqs, fresh):
+                if not f: continue
+                r, o, e = next(it)
+                if r != 0 or not o: continue
+                d2 = gc.parse(o)
+                if d2["exhausted"]: continue
+                if f[0]["out"] != d2["out"] or f[0]["reqs"] != d2["reqs"]:
+                    fails.append(("a request after another one on the same object differs from the same request on a fresh object (randomness or state carried over)",
+                                  "s%d %s %d T %s" % (l2, hd, l1, gc.words_hex(ws, wb)[:200]), "second call: out=%s reqs=%s; fresh object on the rest of the tape: out=%s reqs=%s" % (f[0]["out"][:8], f[0]["reqs"][:6], d2["out"][:8], d2["reqs"][:6])))
             samples.append("q %s <rlen> T <tape>  (wp=%d, %d barriers, L observed from the request size)" % (hd, wp, d0["nb"]))
     ck.stream("request lengths 0..64 (thorough ..4096) x {random, all-zero, all-ones, barrier-repeated, barrier-prefix} tapes x 12 sampler instances, under ASan/LSan/UBSan", n_cases)
     ck.samples = samples[:6]
